@@ -592,7 +592,7 @@ Proof.
   - intros t k w H _. unfold rn_dropped. destruct (drop_callback_view t w). eapply wf_frame_eq; [| |exact H]; assumption.
   - intros t k w H _. unfold rn_despawn_missing. eapply wf_frame_eq; [| |apply wf_despawn; destruct (drop_callback_view t w); eapply wf_frame_eq; [| |exact H]; eassumption]; reflexivity.
   - intros t w H. apply wf_despawn. exact H.
-  - intros t cb b w H. frame_eq H.
+  - intros t cb b w H _. frame_eq H.
   - intros t tk w H. unfold once_finish. destruct (alookup t (cbs w)); [frame_eq H|exact H].
   - intros sd t r c w H. unfold body_begin.
     pose proof (wf_sample_readers sd (xsys_of P t) w H) as H1.
